@@ -15,14 +15,21 @@ INTERVAL = [K + "__or.<locals>.reduce_ranges", K + "__or.<locals>.reduce_chars",
 # the documented conversion of single characters / tokens to AnyFrom(c); the documented exception otherwise; ~ flips the flag
 # and re-brackets the verbose text
 OPERATORS = [K + m for m in ("__or__", "__ror__", "__sub__", "__rsub__", "__invert__")] + ["pregex.core.classes.Any.__invert__"]
+# G8b: the core operations themselves, over abstract item sets: the listed set of the result is the union / difference of the
+# operands' listed sets, EmptyClassException iff nothing is left, the type-mix and global-word exceptions iff documented -
+# relative to the assumed contracts of the text layer (__extract_classes, __modify_classes, __process via __Class.__init__)
+CORE = [K + "__or", K + "__sub"]
 
 
 def run(rep, tier):
     # interval core: VCs with loop invariants over lists-as-maps, all list lengths, all code points
-    vcrun.run_functions(rep, INTERVAL + OPERATORS, tier)
-    rep.assumptions.append("G9b is relative to the assumed contracts of the core operations __or / __sub (same-kind operands give a "
-                           "class with that negation flag; their character sets: interval core G8 + bounded stand-in B3) and to "
-                           "the class invariant that a Token-typed text stands for one character (B1)")
+    vcrun.run_functions(rep, INTERVAL + OPERATORS + CORE, tier)
+    rep.assumptions.append("G8b (__or, __sub) is relative to the assumed contracts of the text layer: __extract_classes(t, unescape=True) "
+                           "returns well-formed unescaped ranges and characters that list exactly what t lists; __modify_classes(S, "
+                           "escape=True) printed between brackets lists exactly what S denotes; __process keeps what the text lists "
+                           "(all three bounded-checked end to end by B2/B3); python sets of class items are modelled by the set of "
+                           "code points they denote")
+    rep.assumptions.append("G9b (operator methods) relies on the class invariant that a Token-typed text stands for one character (B1)")
     for q in INTERVAL:
         vcrun.run_bounded(rep, q, tier, "run-time evaluation of the proved contract on the real nested function (cross-check; not "
                                        "counted as proof)", limit=1500 if tier == "quick" else 40000)
